@@ -210,6 +210,8 @@ def run(ctx, R, tier):
         # 'the decoding thread ends': the frame lookup answers silence only past the end of the audio and a cached chunk answers
         # None for what it does not hold - otherwise the lookup loop never gets back to run() / never decodes again
         chunk_lookup(F, R)
+        from .c18 import chunk_start
+        chunk_start(F, R, rule='B.C10.lookup')
         from .c09 import frame_source
         frame_source(F, R)
         # the slice a streaming sound is given ends inside the audio as the static sound's does (past it, the decoder is asked
